@@ -128,32 +128,69 @@ def t_settings_frame():
     obl = []
     for qual in ("SequentialRunner._generate_markets", "SequentialRunner._generate_agents", "SequentialRunner._generate_sessions", "SequentialRunner._setup", "SequentialRunner._set_fundamental_correlation"):
         fn = src.funcs[qual][0]
-        fresh = set(); n_writes = 0
+        n_writes = 0
         ok = True; why = []
-        for n in ast.walk(fn):
-            if isinstance(n, ast.Assign) and isinstance(n.targets[0], ast.Name):
-                nm = n.targets[0].id
-                if isinstance(n.value, ast.Call) and isinstance(n.value.func, ast.Name) and n.value.func.id == "json_extends":
-                    fresh.add(nm)
-        # every assignment to a fresh name is either the json_extends call or a read of self.settings immediately overwritten by it (checked: the last assignment before use is json_extends)
-        for n in ast.walk(fn):
-            tgt = None
+
+        def is_copy(v):
+            return isinstance(v, ast.Call) and isinstance(v.func, ast.Name) and v.func.id == "json_extends"
+
+        def writes_of(node, fresh):
+            """settings writes syntactically inside `node` (not descending into nested statement lists: those are scanned with their own flow state)"""
+            nonlocal ok, n_writes
+            def bad(txt):
+                nonlocal ok
+                ok = False; why.append(txt[:70])
+            for n in ([node] if not isinstance(node, list) else node):
+                pass
+            n = node
             if isinstance(n, ast.Delete):
                 for t in n.targets:
                     if isinstance(t, ast.Subscript):
-                        tgt = t.value; n_writes += 1
-                        if not (isinstance(tgt, ast.Name) and tgt.id in fresh):
-                            ok = False; why.append(ast.unparse(n))
+                        n_writes += 1
+                        if not (isinstance(t.value, ast.Name) and t.value.id in fresh):
+                            bad(ast.unparse(n))
             if isinstance(n, (ast.Assign, ast.AugAssign)):
                 for t in (n.targets if isinstance(n, ast.Assign) else [n.target]):
                     if isinstance(t, ast.Subscript) and "settings" in ast.unparse(t.value):
                         n_writes += 1
                         if not (isinstance(t.value, ast.Name) and t.value.id in fresh):
-                            ok = False; why.append(ast.unparse(n)[:60])
-            if isinstance(n, ast.Call) and isinstance(n.func, ast.Attribute) and n.func.attr in ("pop", "update", "clear", "setdefault", "popitem") and "settings" in ast.unparse(n.func.value):
-                n_writes += 1
-                if not (isinstance(n.func.value, ast.Name) and n.func.value.id in fresh):
-                    ok = False; why.append(ast.unparse(n)[:60])
+                            bad(ast.unparse(n))
+            for c in ast.walk(n) if isinstance(n, (ast.Expr, ast.Assign, ast.AugAssign, ast.AnnAssign, ast.Return)) else []:
+                if isinstance(c, ast.Call) and isinstance(c.func, ast.Attribute) and c.func.attr in ("pop", "update", "clear", "setdefault", "popitem") and "settings" in ast.unparse(c.func.value):
+                    n_writes += 1
+                    if not (isinstance(c.func.value, ast.Name) and c.func.value.id in fresh):
+                        bad(ast.unparse(c))
+
+        def scan(stmts, fresh):
+            """flow-sensitive: a name is a fresh copy after an UNCONDITIONAL `x = json_extends(...)` in this statement list, until it is re-assigned from anything else;
+            an assignment inside a branch or loop body never makes a name fresh for the code after it, and any other assignment inside one removes freshness"""
+            fresh = set(fresh)
+            for st_ in stmts:
+                if isinstance(st_, (ast.Assign, ast.AnnAssign)) and isinstance((st_.targets[0] if isinstance(st_, ast.Assign) else st_.target), ast.Name):
+                    nm = (st_.targets[0] if isinstance(st_, ast.Assign) else st_.target).id
+                    writes_of(st_, fresh)
+                    if st_.value is not None and is_copy(st_.value):
+                        fresh.add(nm)
+                    elif st_.value is not None:
+                        fresh.discard(nm)
+                    continue
+                blocks = [getattr(st_, f) for f in ("body", "orelse", "finalbody") if isinstance(getattr(st_, f, None), list)]
+                if isinstance(st_, ast.Try):
+                    blocks += [h.body for h in st_.handlers]
+                if blocks and not isinstance(st_, (ast.FunctionDef, ast.ClassDef)):
+                    for blk in blocks:
+                        scan(blk, fresh)
+                    for c in ast.walk(st_):
+                        if isinstance(c, (ast.Assign, ast.AnnAssign, ast.AugAssign)):
+                            for t in (c.targets if isinstance(c, ast.Assign) else [c.target]):
+                                if isinstance(t, ast.Name):
+                                    fresh.discard(t.id)       # (re)assigned on some path only: no longer known to be a copy
+                        if isinstance(c, ast.For) and isinstance(c.target, ast.Name):
+                            fresh.discard(c.target.id)
+                    continue
+                writes_of(st_, fresh)
+            return fresh
+        scan(fn.body, set())
         # the fresh local must be (re)assigned from json_extends before any write: check statement order inside the enclosing loop body
         obl.append({"name": f"effects:settings-written-only-through-copies/{qual}/frame:writes to settings dicts target json_extends results only" + ("" if ok else f" -- {why[:2]}"),
                     "pc": [], "goal": z3.BoolVal(ok), "kind": "frame", "hints": {"writes": n_writes}})
